@@ -59,6 +59,13 @@ def Node.f (n : Node) : Rat := n.g + n.h
 
 def absR (r : Rat) : Rat := if r < 0 then -r else r
 
+/-- what `ANodeCmp::operator()` reads of an `ANode` (key record of the regenerated comparator,
+    `Gen/AStarK.lean`) -/
+structure ANodeK where
+  f : Rat
+  ts : Int
+  deriving Repr, Inhabited, DecidableEq
+
 /-- `ANodeCmp::operator()(a, b)`: "a comes after b" (the heap's head is the node no other node is
     better than) -/
 def worse (eps : Rat) (a b : Node) : Bool :=
@@ -140,12 +147,41 @@ def pathOf (done : List Node) : Nat → Node → List Nat
       | none => [n.v]
       | some p => n.v :: pathOf done k p
 
+/-- What `ConnRef::generateStandardPath` reads back.  `search` stores the result as ONE `pathNext`
+    pointer per *vertex* ("Correct all the pathNext pointers": `curr->inf->pathNext =
+    curr->prevNode->inf`, from the target node back to the start node), and the route is then read by
+    following `pathNext` from the target.  When the node chain visits a vertex twice (possible, since
+    DONE is keyed on (vertex, previous vertex)), the pointer written last — the one of the occurrence
+    nearest the source — wins, so every loop of the chain is cut out of the route.
+    `chain`: vertices of the node chain, target first (= `pathOf`); result: target first. -/
+def routeOfChain : Nat → List Nat → List Nat
+  | 0, _ => []
+  | _, [] => []
+  | fuel + 1, v :: rest =>
+    -- the part of the chain behind the last occurrence of `v` (= the occurrence nearest the source)
+    let after := (rest.reverse.takeWhile (· ≠ v)).reverse
+    v :: routeOfChain fuel after
+
+/-- g of the returned node -/
+def Outcome.cost : Outcome → Option Rat
+  | .found b _ => some b.g
+  | _ => none
+
+/-- vertices of the returned node chain, source first -/
+def Outcome.chain : Outcome → List Nat
+  | .found b done => (pathOf done done.length b).reverse
+  | _ => []
+
 /-- number of DONE nodes = `exploredCount` -/
 def Outcome.explored : Outcome → Nat
   | .found _ d => d.length
   | _ => 0
 
 /-! ## Part 2: the orthogonal router's problem on a dumped visibility graph -/
+
+/-- the literal `0.0000001` of `ANodeCmp` as the double the compiler makes of it (the value cpp2lean
+    reads from the AST; `Props.C05AStar.gen_aNodeCmp_is_model`) -/
+def epsDouble : Rat := 944473296573929 / 9444732965739290427392
 
 /-- one entry of `VertInf::orthogVisList` (disabled edges are not dumped) -/
 structure Edge where
@@ -177,7 +213,7 @@ structure Graph where
   pinPts : List Pt := []
   /-- apply the orthogonal turn-pruning rule (`true` = as coded) -/
   prune : Bool := true
-  eps : Rat := 1 / 10000000
+  eps : Rat := epsDouble
   deriving Repr, Inhabited
 
 def Graph.pt (g : Graph) (v : Nat) : Pt := g.pts.getD v ⟨0, 0⟩
@@ -227,16 +263,15 @@ def bendClass (p1 p2 p3 : Pt) : Nat :=
     else if crossLength v1 v2 = 0 ∧ dot v1 v2 < 0 then 0
     else 1
 
-/-- scalar part of `cost(lineRef, dist, inf2, inf3, inf1Node)` for an orthogonal connector outside
-    the crossing-penalty rerouting stage, without clusters, anglePenalty irrelevant (orthogonal) -/
-def cost (g : Graph) (dist : Rat) (inf1 : Option Nat) (inf2 inf3 : Nat) : Rat :=
+/-- scalar `cost()` on points (what `cost g` computes from the vertices' points) -/
+def costPts (g : Graph) (dist : Rat) (p1 : Option Pt) (p2 p3 : Pt) : Rat :=
   let r0 := dist
   let r1 :=
-    match inf1 with
+    match p1 with
     | none => r0
-    | some i1 =>
+    | some q1 =>
       if g.segPen > 0 then
-        match bendClass (g.pt i1) (g.pt inf2) (g.pt inf3) with
+        match bendClass q1 p2 p3 with
         | 2 => r0 + 2 * g.segPen
         | 0 => r0
         | _ => r0 + g.segPen
@@ -244,12 +279,15 @@ def cost (g : Graph) (dist : Rat) (inf1 : Option Nat) (inf2 inf3 : Nat) : Rat :=
   if g.revPen ≠ 0 then
     let xDir := AdaptaVerif.Model.Bends.dimDirection (g.connDst.x - g.connSrc.x)
     let yDir := AdaptaVerif.Model.Bends.dimDirection (g.connDst.y - g.connSrc.y)
-    let p2 := g.pt inf2
-    let p3 := g.pt inf3
     let rev := (xDir ≠ 0 ∧ -xDir = AdaptaVerif.Model.Bends.dimDirection (p3.x - p2.x)) ∨
                (yDir ≠ 0 ∧ -yDir = AdaptaVerif.Model.Bends.dimDirection (p3.y - p2.y))
     if rev then r1 + g.revPen else r1
   else r1
+
+/-- scalar part of `cost(lineRef, dist, inf2, inf3, inf1Node)` for an orthogonal connector outside
+    the crossing-penalty rerouting stage, without clusters, anglePenalty irrelevant (orthogonal) -/
+def cost (g : Graph) (dist : Rat) (inf1 : Option Nat) (inf2 inf3 : Nat) : Rat :=
+  costPts g dist (inf1.map g.pt) (g.pt inf2) (g.pt inf3)
 
 /-- `m_cost_targets` with directions and displacements (`determineEndPointLocation`) for an orthogonal
     connector whose target is a connector end point; `[(tar, 15, 0)]` if the target has no edge -/
@@ -324,6 +362,81 @@ def Graph.problem (g : Graph) : Problem :=
 def Graph.fuel (g : Graph) : Nat := (g.adj.foldl (fun n l => n + l.length) 0) + 2
 
 def Graph.run (g : Graph) : Outcome := search g.problem g.fuel (init g.problem)
+
+/-- as-coded cost of a polyline given by points (source first): hop lengths are Manhattan distances,
+    the last hop is free when it starts at the point of a cost target -/
+def routeCostPts (g : Graph) : Option Pt → List Pt → Rat
+  | prev, p :: q :: rest =>
+    let step : Rat :=
+      if rest.isEmpty ∧ q = g.pt g.tar ∧ (costTargets g).any (fun ct => g.pt ct.1 = p) then 0
+      else costPts g (AdaptaVerif.Model.Bends.manhattanDist p q) prev p q
+    step + routeCostPts g (some p) (q :: rest)
+  | _, _ => 0
+
+/-! ## Part 3: a decidable consistency check of the estimator on a concrete graph
+
+The hypotheses of `Props.C05AStar.search_optimal` for `g.problem`, checked exhaustively over the states
+(vertex, previous vertex) the search can generate: `Hfun` = the heuristic as a function of the state,
+`bonus v` = the displacement of cost target `v` (the length of the last hop that `search` does not
+charge), consistency on every edge into a non-target state, and tightness on the edges into the target. -/
+
+def Graph.Hfun (g : Graph) (v : Nat) (pv : Option Nat) : Rat :=
+  if v = g.tar then 0 else (estimatedCost g (pv.map g.pt) (g.pt v)).getD 0
+
+def Graph.bonus (g : Graph) (v : Nat) : Rat :=
+  match (costTargets g).find? (fun ct => ct.1 = v) with
+  | some ct => ct.2.2
+  | none => 0
+
+/-- the states (previous vertex, vertex) that can occur: the start node and (p, neighbour of p) -/
+def Graph.states (g : Graph) : List (Option Nat × Nat) :=
+  (none, g.src) :: (List.range g.adj.size).flatMap fun p => (g.adj.getD p []).map fun e => (some p, e.to)
+
+def Graph.consistentAt (g : Graph) (pv : Option Nat) (v : Nat) : Bool :=
+  (g.succs pv v).all fun o =>
+    match o with
+    | none => true
+    | some s =>
+      if s.w ≠ g.tar then decide (g.Hfun v pv ≤ s.c + g.Hfun s.w (some v))
+      else decide (g.Hfun v pv ≤ s.c + g.bonus v) &&
+           (decide (g.bonus v = 0) || decide (g.Hfun v pv = s.c + g.bonus v))
+
+def Graph.consistent (g : Graph) : Bool :=
+  decide (g.src ≠ g.tar) && (costTargets g).all (fun ct => decide (0 ≤ ct.2.2)) &&
+    g.states.all fun st => g.consistentAt st.1 st.2
+
+/-- first violated consistency condition, for reporting: (pv, v, w) -/
+def Graph.firstInconsistent (g : Graph) : Option (Option Nat × Nat × Nat) :=
+  g.states.findSome? fun st =>
+    (g.succs st.1 st.2).findSome? fun o =>
+      match o with
+      | none => none
+      | some s =>
+        let ok : Bool :=
+          if s.w ≠ g.tar then decide (g.Hfun st.2 st.1 ≤ s.c + g.Hfun s.w (some st.2))
+          else decide (g.Hfun st.2 st.1 ≤ s.c + g.bonus st.2) &&
+               (decide (g.bonus st.2 = 0) || decide (g.Hfun st.2 st.1 = s.c + g.bonus st.2))
+        if ok then none else some (st.1, st.2, s.w)
+
+/-- like `firstInconsistent`, but ignoring the two kinds of edges on which the estimator is known to be
+    inconsistent with `cost()`: edges into a cost target (there `estimatedCostSpecific` drops the bend
+    count to 0 because the distance is 0) and doubling back (`cost()` charges 2 penalties, `bends()`
+    needs up to 4 bends for a U-turn). -/
+def Graph.firstInconsistentOther (g : Graph) : Option (Option Nat × Nat × Nat) :=
+  g.states.findSome? fun st =>
+    (g.succs st.1 st.2).findSome? fun o =>
+      match o with
+      | none => none
+      | some s =>
+        let intoCT := (costTargets g).any fun ct => ct.1 = s.w
+        let uturn := match st.1 with
+          | some p => bendClass (g.pt p) (g.pt st.2) (g.pt s.w) = 2
+          | none => false
+        let ok : Bool :=
+          if s.w ≠ g.tar then decide (g.Hfun st.2 st.1 ≤ s.c + g.Hfun s.w (some st.2))
+          else decide (g.Hfun st.2 st.1 ≤ s.c + g.bonus st.2) &&
+               (decide (g.bonus st.2 = 0) || decide (g.Hfun st.2 st.1 = s.c + g.bonus st.2))
+        if ok || intoCT || uturn then none else some (st.1, st.2, s.w)
 
 /-- as-coded cost of a vertex path (source first): what `search` accumulates in `g` along it -/
 def pathCost (g : Graph) : Option Nat → List Nat → Rat
